@@ -248,3 +248,93 @@ def consumes_escape_pairs(seq: Any, quote: str) -> bool:
                 continue
         return False
     return plain and escaped
+
+
+def _class_reps(av: Any) -> List[str]:
+    """Representative members of a character class."""
+    neg = False
+    reps: List[str] = []
+    for o, a in av:
+        if o is sre_c.NEGATE:
+            neg = True
+        elif o is sre_c.LITERAL:
+            reps.append(chr(a))
+        elif o is sre_c.RANGE:
+            lo, hi = a
+            reps.append(chr(lo))
+            if hi != lo:
+                reps.append(chr(hi))
+        elif o is sre_c.CATEGORY:
+            name = str(a)
+            if "NOT" in name:
+                reps.append("x")
+            elif "DIGIT" in name:
+                reps.extend(["0", "7"])
+            elif "SPACE" in name:
+                reps.append(" ")
+            elif "WORD" in name:
+                reps.extend(["a", "0", "_"])
+    if neg:
+        for c in "xX0 ":
+            if c not in reps:
+                return [c]
+        return ["é"]
+    # de-duplicate, keep order, cap
+    out: List[str] = []
+    for r in reps:
+        if r not in out:
+            out.append(r)
+    return out[:6] or ["x"]
+
+
+def shapes(seq: Any, cap: int = 600) -> List[str]:
+    """A finite set of strings covering every *shape* of the pattern's language:
+    each optional part present/absent, each repeat at its minimum, one more and
+    (if allowed) two more, each alternative, and representative members of each
+    character class.  Look-around and anchors are ignored (superset)."""
+    results = [""]
+    for op, av in seq:
+        opts: List[str]
+        if op is sre_c.LITERAL:
+            opts = [chr(av)]
+        elif op is sre_c.NOT_LITERAL:
+            opts = ["x" if chr(av) != "x" else "y"]
+        elif op is sre_c.ANY:
+            opts = ["x"]
+        elif op is sre_c.IN:
+            opts = _class_reps(av)
+        elif op is sre_c.SUBPATTERN:
+            opts = shapes(av[3], cap)
+        elif op in (sre_c.MAX_REPEAT, sre_c.MIN_REPEAT):
+            lo, hi, body = av
+            base = shapes(body, cap)
+            counts = [lo]
+            if hi > lo:
+                counts.append(lo + 1)
+            if hi > lo + 1:
+                counts.append(lo + 2)
+            opts = []
+            for n in counts:
+                if n == 0:
+                    opts.append("")
+                elif n == 1:
+                    opts.extend(base)
+                else:
+                    # vary the first element, repeat the first representative
+                    opts.extend(b + base[0] * (n - 1) for b in base)
+                    if len(base) > 1:
+                        opts.append(base[0] + base[1] * (n - 1))
+        elif op is sre_c.BRANCH:
+            opts = []
+            for alt in av[1]:
+                opts.extend(shapes(alt, cap))
+        else:  # AT, ASSERT, ASSERT_NOT, GROUPREF ...
+            opts = [""]
+        seen = []
+        for o in opts:
+            if o not in seen:
+                seen.append(o)
+        results = [r + o for r in results for o in seen]
+        if len(results) > cap:
+            results = results[:cap]
+    return results
